@@ -11,13 +11,16 @@ Proof.
   apply go_make_np_nonneg. lia.
 Qed.
 
+Lemma msv_fill_length len : forall i mx, length (msv_fill len i mx) = len.
+Proof. induction len as [|k IH]; intros i mx; cbn [msv_fill length]; [reflexivity | rewrite IH; reflexivity]. Qed.
+
 (* for an ordered range the list is max, max-1, ..., min *)
 Lemma make_supported_versions_len mn mx l : 769 <= mn <= 772 -> 769 <= mx <= 772 -> mn <= mx ->
   make_supported_versions mn mx = Ok l -> N.of_nat (length l) = mx - mn + 1.
 Proof.
   intros Hn Hx Hle. unfold make_supported_versions, go_make.
   destruct (Z.ltb_spec (Z.of_N ((mx + 65536 - mn + 1) mod 65536)) 0); [lia|]. cbn [bind]. intros Hok. inversion Hok; subst.
-  rewrite map_length, seq_length.
+  rewrite msv_fill_length.
   replace (mx + 65536 - mn + 1) with ((mx - mn + 1) + 1 * 65536) by lia. rewrite N.mod_add by lia.
   rewrite N.mod_small by lia. lia.
 Qed.
